@@ -28,7 +28,9 @@ func init() {
 		rule("commit-before-ack", ruleExecute).
 		rule("store-process", ruleStoreProcess).
 		rule("R3-sql-origin", ruleSQLOrigin).
-		rule("R3-error-discipline", ruleErrDiscipline(storePkgs...))
+		rule("R3-error-discipline", ruleErrDiscipline(storePkgs...)).
+		rule("R10-batches-processed", ruleBatchesProcessed).
+		rule("M-stmt-prepared", ruleStmtPrepared)
 
 	regProp("C17",
 		[]string{
@@ -40,7 +42,8 @@ func init() {
 		rule("R4-backend-siblings", ruleSiblings).
 		rule("R1R2-sql-spec", ruleSQLSpec(allKinds)).
 		rule("M-DISPATCH", ruleDispatch).
-		rule("commit-before-ack", ruleExecute)
+		rule("commit-before-ack", ruleExecute).
+		rule("M-stmt-prepared", ruleStmtPrepared)
 }
 
 var allCmdTypes = []string{"UpdatePromiseCommand", "CreatePromiseCommand", "UpdateScheduleCommand", "CreateScheduleCommand",
@@ -321,7 +324,8 @@ func init() {
 		rule("R10-exactly-once", ruleExactlyOnce).
 		rule("R1R2-sql-spec", ruleSQLSpec(kindList("ReadPromises", "ReadSchedules", "ReadTasks", "ReadEnqueueableTasks", "TimeoutLocks", "UpdatePromise", "UpdateSchedule", "UpdateTask"))).
 		rule("R9-command-provenance", ruleCmdProvenance("ReadPromisesCommand", "ReadSchedulesCommand", "ReadTasksCommand", "ReadEnqueueableTasksCommand", "TimeoutLocksCommand", "UpdatePromiseCommand", "UpdateScheduleCommand", "UpdateTaskCommand")).
-		rule("R17-commands-submitted", ruleCommandsSubmitted)
+		rule("R17-commands-submitted", ruleCommandsSubmitted).
+		rule("R17-lifecycle-calls", ruleLifecycleCalls)
 
 	regProp("C12",
 		[]string{
@@ -335,7 +339,11 @@ func init() {
 		rule("R17-serve-shutdown", ruleServeShutdown).
 		rule("R14-shutdown-flag", ruleShutdownFlag).
 		rule("store-process", ruleStoreProcess).
-		rule("R10-http-reply-once", ruleHttpReplyOnce)
+		rule("R10-http-reply-once", ruleHttpReplyOnce).
+		rule("R10-batches-processed", ruleBatchesProcessed).
+		rule("R10-kernel-queues", ruleKernelQueues).
+		rule("R17-lifecycle-calls", ruleLifecycleCalls).
+		rule("R10-cqe-well-formed", ruleCQEWellFormed)
 }
 
 func init() {
@@ -364,7 +372,9 @@ func init() {
 		rule("R12-union-literals", ruleUnionLiterals).
 		rule("R12-err-dominates-use", ruleErrDominatesUse).
 		rule("R12-records-index", ruleRecordsIndex).
-		rule("R13-front-end-siblings", ruleFrontEndSiblings)
+		rule("R13-front-end-siblings", ruleFrontEndSiblings).
+		rule("M-stmt-prepared", ruleStmtPrepared).
+		rule("R10-cqe-well-formed", ruleCQEWellFormed)
 }
 
 func init() {
@@ -397,7 +407,8 @@ func init() {
 		rule("R9-command-provenance", ruleCmdProvenance("CreateTaskCommand", "CreatePromiseAndTaskCommand")).
 		rule("R6-object-provenance", ruleObjProvenance("SenderSubmission", "Task", "Promise")).
 		rule("R12-decode-nil", ruleDecodeNil).
-		rule("R10-exactly-once", ruleExactlyOnce)
+		rule("R10-exactly-once", ruleExactlyOnce).
+		rule("R10-cqe-well-formed", ruleCQEWellFormed)
 }
 
 func init() {
